@@ -311,6 +311,38 @@ theorem selectTxChannel_id {σ} (g : Rng σ) (rs rs' : RegionState) (dr : Gen.Re
 
 /-! ## frames heard on the RXC parameters, by a device with a session -/
 
+/-- a frame heard on the RXC parameters that the reference does not accept -/
+theorem macHandleRxc_joined_none (m : MacState) (s : Session) (hst : m.st = .joined s) (hl : LastOk s.fcntDown)
+    (v : RxView) (mp : Nat) (snr : Int) (hw : viewOk v = true) (hs : specRxc s.fcntDown v mp = none) :
+    macHandleRx m v mp snr true = .ok (some noUp, m) := by
+  rw [macHandleRxc_joined m s hst hl v mp snr hw]
+  cases v with
+  | garbage => rfl
+  | joinAccept j => rfl
+  | data d =>
+    simp only
+    have : accepts s.fcntDown d mp = none := by
+      unfold specRxc at hs
+      simp only [Option.map_eq_none_iff] at hs
+      exact hs
+    rw [this]; rfl
+
+/-- … that the reference accepts -/
+theorem macHandleRxc_joined_some (m : MacState) (s : Session) (hst : m.st = .joined s) (hl : LastOk s.fcntDown)
+    (v : RxView) (mp : Nat) (snr : Int) (hw : viewOk v = true) (N : Nat) (d : RxData) (hs : specRxc s.fcntDown v mp = some (N, d)) :
+    macHandleRx m v mp snr true = .ok (some (acceptOut s d N (ctxC m s)), acceptState m s d N (ctxC m s)) ∧
+      accepts s.fcntDown d mp = some N ∧ d.fcnt16 < 65536 := by
+  rw [macHandleRxc_joined m s hst hl v mp snr hw]
+  cases v with
+  | garbage => cases hs
+  | joinAccept j => cases hs
+  | data d' =>
+    simp only [specRxc, Option.map_eq_some_iff, Prod.mk.injEq] at hs
+    obtain ⟨_, ha, rfl, rfl⟩ := hs
+    refine ⟨?_, ha, by simpa [viewOk] using hw⟩
+    simp only [ha, acceptM, acceptCmds_c, ctxC, bind, Except.bind, pure, Except.pure]
+
+
 def csOk (cs : List (RxView × Int)) : Bool := cs.all (fun c => viewOk c.1)
 
 theorem rxcs_joined (mp : Nat) (cs : List (RxView × Int)) (hv : csOk cs = true) :
